@@ -537,6 +537,58 @@ func runCase(r *mon.Run, c Case) {
 			x.pair(b, a)
 			x.unary(b)
 		}
+	case "montpairs":
+		// pairs whose HIDDEN intermediates are special: a multiplication is two (or more) Montgomery reductions, and
+		// the value between them, a*b*R^j mod L for the radix R of either limb backend (2^260, 2^261) and small j, is
+		// made to land on the values where a reduction's final conditional subtraction decides (L-e, 2^252+-e, kL+-e, 0,
+		// small): b is solved from a*b = m*R^j (mod L). The operands and the product look ordinary.
+		var ms []*big.Int
+		p2 := func(n uint) *big.Int { return new(big.Int).Lsh(big.NewInt(1), n) }
+		for e := int64(0); e <= 130; e++ {
+			if e > 9 && e != 63 && e != 64 && e != 65 && e != 127 && e != 128 && e != 129 {
+				continue
+			}
+			ev := big.NewInt(e)
+			ms = append(ms, new(big.Int).Sub(L, ev), new(big.Int).Add(p2(252), ev), new(big.Int).Sub(p2(252), ev), ev)
+		}
+		ms = append(ms, new(big.Int).Sub(L, new(big.Int).Sub(L, p2(252))), new(big.Int).Rsh(new(big.Int).Add(L, p2(252)), 1)) // 2^252 and the middle of [2^252, L)
+		for i := 0; i < 20; i++ {
+			// PRNG points of the band [2^252, L)
+			w := new(big.Int).Sub(L, p2(252))
+			ms = append(ms, new(big.Int).Add(p2(252), new(big.Int).Mod(gen.Rand255(rng), w)))
+		}
+		for _, rbits := range []uint{260, 261, 256, 252} {
+			R := modL(p2(rbits))
+			Rinv := new(big.Int).ModInverse(R, L)
+			for _, j := range []int{1, 2, -1, -2, 3} {
+				f := big.NewInt(1)
+				for t := 0; t < j; t++ {
+					f = modL(new(big.Int).Mul(f, R))
+				}
+				for t := 0; t > j; t-- {
+					f = modL(new(big.Int).Mul(f, Rinv))
+				}
+				for mi, m := range ms {
+					var a *big.Int
+					switch mi % 4 {
+					case 0:
+						a = p2(uint(1 + rng.IntN(254)))
+					case 1:
+						a = big.NewInt(int64(1 + rng.IntN(1000)))
+					default:
+						a = modL(gen.Rand255(rng))
+					}
+					if modL(a).Sign() == 0 {
+						a = big.NewInt(3)
+					}
+					b := modL(new(big.Int).Mul(modL(new(big.Int).Mul(m, f)), new(big.Int).ModInverse(modL(a), L)))
+					x.pair(a, b)
+					x.pair(b, a)
+					// a non-canonical representative of b (b + L < 2^255 always holds for b < L <  2^253)
+					x.pair(a, new(big.Int).Add(b, L))
+				}
+			}
+		}
 	case "randpairs":
 		for i := 0; i < 200; i++ {
 			a, b := gen.RandScalar(rng, cat), gen.RandScalar(rng, cat)
@@ -591,6 +643,9 @@ func main() {
 	}
 	for i := 0; i < r.Pick(40, 1500); i++ {
 		cases = append(cases, Case{Kind: "carrypairs", Stream: fmt.Sprintf("c05/carrypairs/%d", i)})
+		if i < 3 {
+			cases = append(cases, Case{Kind: "montpairs", Stream: fmt.Sprintf("c05/montpairs/%d", i)})
+		}
 	}
 	for i := 0; i < r.Pick(12, 300); i++ {
 		cases = append(cases, Case{Kind: "decode", Stream: fmt.Sprintf("c05/decode/%d", i)})
